@@ -23,7 +23,7 @@ from ndn.encoding import make_data, parse_data, MetaInfo, Name
 from ndn.security import KeychainDigest, DigestSha256Signer, NullSigner
 from ndn.security.signer.sha256_ecdsa_signer import Sha256WithEcdsaSigner
 from ndn.security.signer.sha256_rsa_signer import Sha256WithRsaSigner
-from ndn.security.validator.cascade_validator import MemoryKeyStorage
+from ndn.security.validator.cascade_validator import MemoryKeyStorage, EmptyKeyStorage, PublicKeyStorage
 
 LEVEL = 'fault_enumeration'
 
@@ -269,7 +269,7 @@ async def validate(validator, wire):
 
 
 def check_single(ctx, rng):
-    n = ctx.n(208, 16000)
+    n = ctx.n(143, 16000)
     for i in range(n):
         depth = rng.randint(1, 4)
         dev = DEVIATIONS[i % len(DEVIATIONS)]
@@ -455,6 +455,24 @@ def check_histories(ctx, rng):
                 ctx.event('order-dependent-verdict')
 
 
+class EvictingStorage(PublicKeyStorage):
+    """A legal storage that keeps only the most recently saved key (a storage is a cache: it may forget)."""
+    def __init__(self):
+        self.last = None
+
+    def load(self, name):
+        if self.last is not None and self.last[0] == Name.to_bytes(name):
+            return self.last[1]
+        return None
+
+    def save(self, name, key_bits):
+        self.last = (Name.to_bytes(name), bytes(key_bits))
+
+
+def storage_of(kind):
+    return {'default': None, 'memory': MemoryKeyStorage, 'empty': EmptyKeyStorage, 'evicting': EvictingStorage}[kind]
+
+
 def leaf_under(rng, H, lvl, tag):
     """One more key at level lvl (its certificate issued by level lvl-1 of H)  -> (key, cert name, cert wire)"""
     k = Key(rng, 'ec', SITE + [C(b'l%d' % lvl), C(b'id' + tag), C(b'KEY'), C(b'k' + tag)])
@@ -466,7 +484,7 @@ def leaf_under(rng, H, lvl, tag):
 def check_same_instance(ctx, rng):
     """Histories on ONE validator instance: what it validated (and cached) before must not change a later verdict; several
     validations in flight at once; the anchor buffer is the caller's and may be reused after construction."""
-    for hi in range(ctx.n(12, 600)):
+    for hi in range(ctx.n(20, 600)):
         depth = rng.randint(1, 3)
         H = Hierarchy(rng, depth, 'cc%02x' % rng.getrandbits(8))
         served = {tuple(n): w_ for n, w_ in zip(H.cert_names[1:], H.cert_wires[1:])}
@@ -486,7 +504,8 @@ def check_same_instance(ctx, rng):
             served[tuple(cn)] = cw
             w_ = bytes(make_data(SITE + [C(b'data'), C(b'par%d' % j)], MetaInfo(), b'c', k.signer(cn)))
             par.append((w_ if j != 1 else flip_sig(w_), j != 1))
-        plan = ['good-then-ghost', 'ghost-then-good', 'parallel-first', 'parallel-after-good'][hi % 4]
+        plan = ['good-then-ghost', 'ghost-then-good', 'parallel-first', 'parallel-after-good', 'unavailable-then-available'][hi % 5]
+        storage_kind = ['default', 'memory', 'empty', 'evicting'][(hi // 2) % 4]
         anchor_form = ['bytes', 'bytearray-reused', 'memoryview-reused'][hi % 3]
         res = {}
 
@@ -500,7 +519,7 @@ def check_same_instance(ctx, rng):
             checker = Checker(compile_lvs(schema_text(depth)), {})
             buf = bytearray(H.cert_wires[0])
             arg = bytes(buf) if anchor_form == 'bytes' else buf if anchor_form == 'bytearray-reused' else memoryview(buf)
-            v = lvs_validator(checker, the_app, arg, MemoryKeyStorage() if hi % 2 else None) if hi % 2 else lvs_validator(checker, the_app, arg)
+            v = lvs_validator(checker, the_app, arg) if storage_kind == 'default' else lvs_validator(checker, the_app, arg, storage_of(storage_kind)())
             if anchor_form != 'bytes':
                 buf[:] = bytes(len(buf))         # the caller reuses its buffer after the validator has been built
             out = []
@@ -513,9 +532,19 @@ def check_same_instance(ctx, rng):
                 out.append((label, ok, exp))
             seq = {'good-then-ghost': [('good', good, True), ('ghost-locator', bad_locator, False), ('forged', forged, False), ('good-again', good, True)],
                    'ghost-then-good': [('ghost-locator', bad_locator, False), ('good', good, True), ('ghost-locator-again', bad_locator, False)],
-                   'parallel-first': [], 'parallel-after-good': [('good', good, True)]}[plan]
+                   'parallel-first': [], 'parallel-after-good': [('good', good, True)], 'unavailable-then-available': []}[plan]
             for label, wire, exp in seq:
                 await one(label, wire, exp)
+            if plan == 'unavailable-then-available' and depth >= 1:
+                # the signer's certificate cannot be had at first (Nack / silence), later it can: the verdict follows what is retrievable
+                # now, not what failed before
+                gone = tuple(real)
+                (srv.nacked if hi % 2 else srv.unserved).add(gone)
+                await one('good-while-certificate-unavailable', good, False)
+                srv.nacked.discard(gone)
+                srv.unserved.discard(gone)
+                await one('good-after-certificate-returned', good, True)
+                await one('forged', forged, False)
             if plan.startswith('parallel'):
                 await asyncio.gather(*[one(f'parallel-{j}', w_, exp) for j, (w_, exp) in enumerate(par)])
                 await one('ghost-locator', bad_locator, False)
@@ -524,8 +553,9 @@ def check_same_instance(ctx, rng):
             the_app.shutdown()
             await asyncio.wait_for(main_task, 5)
         S = vtime.run(main)
-        w = {'plan': plan, 'anchor_form': anchor_form, 'depth': depth, 'parallel_signers': nleaf}
-        ctx.case(('same-instance', plan, anchor_form, depth, nleaf), nontrivial=True)
+        w = {'plan': plan, 'anchor_form': anchor_form, 'depth': depth, 'parallel_signers': nleaf, 'storage': storage_kind}
+        ctx.case(('same-instance', plan, anchor_form, depth, nleaf, storage_kind), nontrivial=True)
+        ctx.event('storage-' + storage_kind)
         ctx.event('same-instance-history')
         ctx.event('same-instance-' + plan)
         ctx.event('anchor-form-' + anchor_form)
@@ -538,7 +568,7 @@ def check_same_instance(ctx, rng):
                 ctx.report(f'same-instance-validator-raises:{type(ok).__name__}', f'{label}: {ok!r}', w2)
             elif ok != exp:
                 kind = label.split('-')[0] if not label.startswith('ghost') else 'ghost-locator'
-                ctx.report(f'same-instance:{"accepted-without-valid-chain" if ok else "valid-chain-rejected"}:{kind}' + (':anchor-buffer-reused' if (anchor_form != 'bytes' and not ok) else ''),
+                ctx.report(f'same-instance:{"accepted-without-valid-chain" if ok else "valid-chain-rejected"}:{kind}',
                            f'{label}: validator said {ok}, expected {exp} (plan {plan}, anchor given as {anchor_form})', w2)
 
 
